@@ -42,11 +42,12 @@ pub fn run_task(task: (usize, u64, usize, usize), mon: &mut Monitor, thorough: b
         .with_signers(n)
         .with_protocol_parameters(ProtocolParameters { k: 5, m: 100, phi_f: 0.65 })
         .with_party_id_seed(seed);
+    // signers are always KES-certified (the harness never enables allow_skip_signer_certification)
     b = match variant % 4 {
         0 => b,
-        1 => b.with_stake_distribution(StakeDistributionGenerationMethod::Uniform(1_000)).disable_signers_certification(),
+        1 => b.with_stake_distribution(StakeDistributionGenerationMethod::Uniform(1_000)),
         2 => b.with_stake_distribution(StakeDistributionGenerationMethod::RandomDistribution { seed, min_stake: 1 }),
-        _ => b.disable_signers_certification(),
+        _ => b.with_stake_distribution(StakeDistributionGenerationMethod::RandomDistribution { seed: [7u8; 32], min_stake: 1_000_000 }),
     };
     let fixture = match vcore::catch(|| b.build()) {
         Ok(f) => f,
@@ -106,7 +107,13 @@ pub fn run_task(task: (usize, u64, usize, usize), mon: &mut Monitor, thorough: b
         mon.eval();
         mon.nontrivial_str(&format!("c06|{n}|{variant}|{p:?}"));
         match compute(&msd) {
-            Ok(h) if h == cert.signed_message => mon.count("c06|permutation|message_matches_fixture_key"),
+            Ok(h) if h == cert.signed_message => {
+                mon.count("c06|permutation|message_matches_fixture_key");
+                if n == 4 && variant == 0 && mon.counter("sample|c06") < 2 && p[0] != 0 {
+                    mon.count("sample|c06");
+                    mon.sample(json!({"kind": "c06", "signers": n, "order": p, "stakes": p.iter().map(|i| signers[*i].stake).collect::<Vec<_>>(), "outcome": "message equals the one built with the fixture's own aggregate verification key", "message_hash": h}));
+                }
+            }
             Ok(h) => {
                 mon.count("c06|permutation|MESSAGE_DIFFERS");
                 mon.violation(
